@@ -30,7 +30,9 @@ theorem admissibleX_of_admissible (ps : List (Gap × PTok)) (g : Gap) (h : Admis
     | nil => trivial
     | cons r' rest' =>
       obtain ⟨g1, q⟩ := r'
-      exact ⟨hn.1, fun hl hi => hn.2 hl (isWordTok_of_isIdentTok _ hi)⟩
+      refine ⟨hn.1, fun hl hi hq gr r rest'' hr _ => ?_⟩
+      subst hr
+      exact hn.2 hl (isWordTok_of_isIdentTok _ hi) hq (by simp)
 
 /-! ### phase 2: one `PrintableX` token -/
 
@@ -92,8 +94,9 @@ theorem hId_of_admissibleX (g0 : Gap) (p : PTok) (rest : List (Gap × PTok)) (g 
     rcases partialsX_cases rest' g with h' | ⟨m', h'⟩ | ⟨r, rest'', rfl, h'⟩
     · simp [h'] at hm
     · simp [h'] at hm
-    · have := ha.2.1.2 hlm rfl hq (by simp)
-      simp [nextGap] at this
+    · rw [h'] at hm
+      have hr := head?_ptokPartialsX_literal r _ w' hm
+      rcases ha.2.1.2 hlm rfl hq [] r rest'' rfl hr with h0 | h0 <;> exact h0 rfl
 
 /-! ### phase 2 -/
 
@@ -190,6 +193,51 @@ theorem C06_signed_after_ident : ∃ f, F64.parse cl!"1e+2" = some f ∧
       · exact Or.inl rfl
       · exact hpf)
     (by simp [AdmissibleX, fuses, isWordTok, absorbsEq, startsWithEq, isIdentTok, isSlash, looksLikeMantissaE])
+  simpa [renderFrom, Gap.text] using this
+
+/-- `1e+"3"`: an identifier, a plus and a string — not a float -/
+theorem C07_sign_before_string :
+    tokenize cl!"1e+\"3\"" = .ok [.identifier cl!"1e", .plus, .string cl!"3"] := by
+  have h1e : lexWord cl!"1e" = none :=
+    C06_word cl!"1e" (by decide) (by decide) (by decide) (by decide) (by decide) (by decide)
+  have := C07_roundtrip_ext
+    [([], ⟨.identifier cl!"1e", cl!"1e"⟩), ([], ⟨.plus, cl!"+"⟩), ([], ⟨.string cl!"3", cl!"\"3\""⟩)] []
+    (by
+      intro p hp
+      simp only [List.mem_cons, List.not_mem_nil, or_false] at hp
+      rcases hp with rfl | rfl | rfl
+      · exact Or.inl ⟨rfl, by decide, h1e⟩
+      · exact Or.inl rfl
+      · exact Or.inl rfl)
+    (by
+      simp [AdmissibleX, fuses, isWordTok, absorbsEq, startsWithEq, isIdentTok, isSlash]
+      -- the token after the sign is a string, not a word token
+      intro _ _ gr r rest'' _ hr _ hw
+      subst hr
+      cases hw)
+  simpa [renderFrom, Gap.text] using this
+
+/-- `2E-(x)` -/
+theorem C07_sign_before_paren :
+    tokenize cl!"2E-(x)" =
+      .ok [.identifier cl!"2E", .minus, .lBrace, .identifier cl!"x", .rBrace] := by
+  have h2E : lexWord cl!"2E" = none :=
+    C06_word cl!"2E" (by decide) (by decide) (by decide) (by decide) (by decide) (by decide)
+  have hx : lexWord cl!"x" = none :=
+    C06_word cl!"x" (by decide) (by decide) (by decide) (by decide) (by decide) (by decide)
+  have := C07_roundtrip_ext
+    [([], ⟨.identifier cl!"2E", cl!"2E"⟩), ([], ⟨.minus, cl!"-"⟩), ([], ⟨.lBrace, cl!"("⟩),
+      ([], ⟨.identifier cl!"x", cl!"x"⟩), ([], ⟨.rBrace, cl!")"⟩)] []
+    (by
+      intro p hp
+      simp only [List.mem_cons, List.not_mem_nil, or_false] at hp
+      rcases hp with rfl | rfl | rfl | rfl | rfl
+      · exact Or.inl ⟨rfl, by decide, h2E⟩
+      · exact Or.inl rfl
+      · exact Or.inl rfl
+      · exact Or.inl ⟨rfl, by decide, hx⟩
+      · exact Or.inl rfl)
+    (by simp [AdmissibleX, fuses, isWordTok, absorbsEq, startsWithEq, isIdentTok, isSlash])
   simpa [renderFrom, Gap.text] using this
 
 end Evalexpr.Spec
